@@ -15,6 +15,7 @@ from common import REPO
 
 SRC = os.path.join(REPO, "src", "ovld")
 BLOCK_TIMEOUT = 0.1
+LAST = {}
 
 
 class Worker:
@@ -27,6 +28,7 @@ class Worker:
         self.result = None
         self.steps = 0
         self.where = None
+        self.wheres = []
         self.thread = threading.Thread(target=self.main, daemon=True)
 
     def glob(self, frame, event, arg):
@@ -38,6 +40,7 @@ class Worker:
     def local(self, frame, event, arg):
         if event == "line":
             self.where = (frame.f_code.co_name, frame.f_lineno)
+            self.wheres.append(frame.f_code.co_name)
             self.steps += 1
             # park: tell the scheduler we are at a point, wait for permission to execute this line
             self.go.clear()
@@ -127,4 +130,6 @@ def run_schedule(fns, segments):
     ok = s.run(segments)
     for w in s.workers:
         w.thread.join(2.0)
+    s.wheres = [w.wheres for w in s.workers]
+    LAST["wheres"] = s.wheres
     return ok, s.results(), s.lengths(), s.trace
